@@ -10,7 +10,7 @@ import nrun
 import pool
 from common import cerberus, real_error
 
-LEVEL = "proof"
+LEVEL = "translation_validation"
 COQ_FILES = ["theories/Model/Normalize.v"]
 FACT_GROUPS = ["F11"]
 ALLOWED_AXIOMS = []
